@@ -1,6 +1,7 @@
 """C17 -- procedural bodies (CREATE ... BEGIN ... END;) stay one statement."""
 import ast
 import copy
+from ..model import AnalysisError as model_AnalysisError
 
 from .. import miniev as ME
 from .. import rules_splitter as RS
@@ -64,6 +65,9 @@ def run(ctx):
     check_block_keywords(ctx, V)
     check_protocol(ctx, V)
     from .. import rules_base as RB
+    from .. import rules_lexer as RL_
+    ctx.rule('R17.S', 'Lexer.get_tokens interpreted on short texts agrees token by token with the rule-table model the other rules use', floor=1)
+    RL_.check_scan_semantics(ctx, 'R17.S')
     ctx.rule('R17.B', 'base model: token-type containment and token normal form behave as the protocol evaluation assumes', floor=1)
     RB.check_base_model(ctx, 'R17.B', parts=('contains', 'flags'))
     # the level protocol lives in one StatementSplitter object per script: the entry points must give the whole script to one run
@@ -119,8 +123,13 @@ def initial_state(ctx):
     return st
 
 
+SPELLING = {'sep': ' ', 'lower': False}
+
+
 def lex_item(ctx, V, item):
-    text = item.replace('_', ' ')
+    text = item.replace('_', SPELLING['sep'])
+    if SPELLING['lower']:
+        text = text.lower()
     r, end, tt = V.T.lex_one(text + ' ', 0)
     ctx.need(end == len(text), f'skeleton item {text!r} is not lexed as one token (ends at {end}): the skeleton table needs updating')
     return tt, text
@@ -199,6 +208,30 @@ def check_protocol(ctx, V):
         singles[name] = run_one(name, body.format(''))
     for name, body in LEAF.items():
         singles[name] = run_one(name, body)
+    # the same constructs in the other spellings the lexer hands out as one token: lower case, and tab / line break / two blanks /
+    # CRLF between the words of END IF, END LOOP, CREATE OR REPLACE ...  The verdict must not depend on the spelling.
+    ctx.rule('R17.7', 'the protocol does not depend on how a keyword is spelled (letter case, whitespace inside multi-word keywords)', floor=1)
+    nsp = 0
+    for sep, lower, label in ((' ', True, 'lower case'), ('\t', False, 'tab inside'), ('\n', False, 'line break inside'), ('  ', False, 'two blanks inside'),
+                              ('\r\n', True, 'CRLF inside, lower case')):
+        diffs = []
+        SPELLING.update(sep=sep, lower=lower)
+        try:
+            for name, body in list(BODY.items()) + list(LEAF.items()):
+                if singles.get(name, 'x') is not None:
+                    continue            # not balanced in the canonical spelling either: a listed finding, not a spelling matter
+                text = body.format('') if name in BODY else body
+                try:
+                    r_ = run_one(name + ' [' + label + ']', text)
+                except model_AnalysisError:
+                    r_ = 'an item is no longer one token in this spelling'
+                if r_ not in (None, 'undetermined'):
+                    diffs.append(f'{name}: {r_}')
+                nsp += 1
+        finally:
+            SPELLING.update(sep=' ', lower=False)
+        ctx.ob('R17.7', f'spelling:{label}', loc, f'every construct that is balanced in upper case with single blanks is balanced with {label}', not diffs,
+               f'{diffs[:2]}: e.g. `END{sep!r}IF` written that way is not recognised as the closer, the body never returns to level 0 and the following statements are swallowed')
     # DECLARE before BEGIN
     try:
         tr = simulate(ctx, V, 'SELECT 0 ;! CREATE FUNCTION f ( ) RETURNS int AS DECLARE x int ; y int ; BEGIN SELECT 1 ; END ;! SELECT 9 ;!', f, init)
